@@ -139,6 +139,7 @@ impl Check for C01 {
             }
         }
         crate::gen::session_variants(&mut r, &mut events, 3, 6, 0);
+        crate::gen::nest_variants(&mut r, &mut events);
         Trace { check: "C01".into(), seed, host_tz: env.host_tz.clone(), salt: seed ^ 0x5a17, mode: if with_rules { "mixed+rules".into() } else { "mixed".into() }, events }
     }
 
@@ -165,7 +166,47 @@ impl Check for C01 {
                         rep.violate("O-total", format!("admin-{}", p.key()), ei, format!("configuration call {:?} panicked: {} at {}", op, p.msg, p.loc));
                     }
                 }
-                Op::Checkpoint { .. } | Op::Nested { .. } | Op::SessionFormat => {}
+                Op::Checkpoint { .. } | Op::SessionFormat => {}
+                Op::Nested { outer, inner } => {
+                    // totality under re-entrance: another text is evaluated inside a callback invocation of this one
+                    let (lang, text, is_session) = match &**outer {
+                        Op::Execute { lang, text } => (lang.clone(), text, false),
+                        Op::SessionText { text } => (lang_of.get(&ev.actor).cloned().unwrap_or_else(|| "en".into()), text, true),
+                        _ => continue,
+                    };
+                    if is_session && !w.sessions.contains_key(&ev.actor) { w.session_new(ev.actor, &lang); }
+                    let strip = |v: Vec<String>| -> Vec<String> { v.into_iter().map(|l| l.strip_prefix(WITNESS).map(|x| x.to_string()).unwrap_or(l)).collect() };
+                    let rendered = strip(w.render(text));
+                    let full = text.assemble(&rendered);
+                    let want = text.expected_slots(&rendered);
+                    if is_session { last_slots_of.insert(ev.actor, want); }
+                    let mut calls = Vec::new();
+                    let mut wants = Vec::new();
+                    for (idx, st) in inner.iter().enumerate() {
+                        let r2 = strip(w.render(&st.text));
+                        wants.push((st.text.assemble(&r2), st.text.expected_slots(&r2)));
+                        calls.push(crate::world::InnerCall { idx, at_call: st.at_call, actor: st.actor, session: false, lang: st.lang.clone(), text: wants[idx].0.clone(), t: t + st.dt });
+                    }
+                    let (o, clk, results) = w.run_nested(if is_session { Some(ev.actor) } else { None }, &lang, &full, &ev.clock, calls);
+                    rep.evaluations += 1 + results.len() as u64;
+                    rep.clock_reads += clk.values.len() as u64;
+                    let mut total = |rep: &mut RunReport, who: &str, o: &CallObs, full: &str, want: usize| {
+                        rep.mix_obs(&o.short());
+                        rep.judged += 1;
+                        match o {
+                            CallObs::Unwound(p) => rep.violate("O-total", p.key(), ei, format!("{} text {:?} panicked: {} at {} in {}", who, full, p.msg, p.loc, p.func)),
+                            CallObs::Returned { status, lines } => {
+                                if !*status { rep.violate("O-total", format!("status-false:{}", who), ei, format!("{} text {:?} returned status=false", who, full)); }
+                                else if lines.len() != want { rep.violate("O-total", format!("slot-count:{}", who), ei, format!("{} text {:?} has {} lines but {} result slots", who, full, want, lines.len())); }
+                            }
+                        }
+                    };
+                    total(&mut rep, "nested-outer", &o, &full, want);
+                    for res in results.iter() {
+                        if res.fired_in_call.is_some() { rep.count("sched.step_inside_callback"); } else { rep.count("probe.nested_not_reached"); }
+                        total(&mut rep, "nested-inner", &res.obs, &wants[res.idx].0, wants[res.idx].1);
+                    }
+                }
                 Op::SessionLang { lang } => {
                     if w.sessions.contains_key(&ev.actor) { w.session_set_language(ev.actor, lang); lang_of.insert(ev.actor, lang.clone()); rep.count("session.language_switch"); }
                 }
